@@ -107,6 +107,8 @@ def parseWdOp (s : String) : Option WdHist.Op :=
   | "t1a" | "t2a" | "t3a" | "t4a" | "t6a" => some (.tx .alive)
   | "t1x" | "t2x" | "t3x" | "t4x" | "t6x" => some (.tx .over)
   | "t1k" | "t2k" | "t3k" | "t4k" | "t6k" => some (.tx .cancelled)
+  | "dp" => some (.closeDeadline true)
+  | "df" => some (.closeDeadline false)
   | _ => none
 
 def showWdRes : WdHist.Res → String
